@@ -141,7 +141,7 @@ def check(ctx):
             ctx.check(bool(good) and w is None, "C05.c", "%s:end-result-released" % fk, body.loc(b),
                       "the entity returned by %s::end() reaches %s on every path" % (tname, [lib.tail(s[1], 2) for s in good]),
                       "the data entity returned by %s::end() is dropped without being released/despawned" % tname)
-    ctx.floor("C05.c", n_end_uses, 3, "uses of a tracker end() result")
+    ctx.floor("C05.c", n_end_uses, 2, "uses of a tracker end() result")
     if rel is not None:
         ctx.touch(rel)
         dec = [b for b, t, fr in rel.iter_calls() if fr and lib.tail(mir.fn_name(fr), 1) == "decrement"]
